@@ -271,7 +271,8 @@ def _unique(ar, return_index=False, return_inverse=False, return_counts=False, a
                 break
             vals.append(c)
         if not ok:
-            raise engine.Unmodelled('unique of symbolic values')
+            # symbolic entries: NumPy's own sort-based unique on objects (comparisons fork)
+            return _np.unique(ar, return_index, return_inverse, return_counts, axis=axis, **kw)
         isint = all(float(v) == int(v) for v in vals)
         nat = _np.array([int(v) if isint else float(v) for v in vals]).reshape(ar.shape)
         return _np.unique(nat, return_index, return_inverse, return_counts, axis=axis, **kw)
